@@ -396,6 +396,7 @@ class PathAnalysis:
         return kind(l) == "mem" and (l[3], l[2]) in self.stable_fields
 
     def run(self, func):
+        self.hard_degraded = False
         tracked = self.tracked_vars(func)
         retvars = set()
         for _b, _i, _s, _n in func.nodes(into_seen=True):
@@ -467,6 +468,7 @@ class PathAnalysis:
                     if ns in ss:
                         continue
                     if len(ss) >= 4 * self.STATE_CAP:
+                        self.hard_degraded = True
                         ns = (freeze({}), u2)
                         if ns in ss:
                             continue
